@@ -16,8 +16,14 @@ import Driver.HeapOps
   * `tile`: tile → WGS84 → tile returns exactly the input integers.  Failures are classified by
     clause: `tile-roundtrip-pow2`, `tile-roundtrip-nonpow2` (the missing half pixel, repaired by fix
     7b86dd1: must now pass on every non-polar pixel),
-    `tile-roundtrip-polar-clamp` (pixels whose latitude lies beyond asin(0.9999) = 89.19°, where
-    `mercator.ToPlanar` clamps);
+    `tile-roundtrip-polar-clamp` — emitted ONLY when model and implementation agree on the case, the
+    tile has zoom ≤ 1, and EVERY bad vertex is bad in y alone and is itself a pixel on whose own
+    latitude `mercator.ToPlanar`'s ±0.9999 clamp fires (|lat| > asin(0.9999) = 89.1897°); a failing
+    vertex that is not such a pixel is never absorbed;
+    judged domain of the exact round trip: zoom ≤ 22 and zoom + log₂ extent ≤ 44 (error analysis at
+    `resolutionLimit`); failures outside are `skip`, the twin is compared everywhere;
+  * `tiles`: the same for `Layers.ProjectToWGS84` / `Layers.ProjectToTile` (models `layersProjectTo*`),
+    judged layer by layer; `tile` runs the models `layerProjectToWGS84` / `layerProjectToTile`;
   * `proj`: kind / nesting / order preserved, `proj` called exactly once per vertex in storage order,
     bound = box of the two projected corners, slices transformed in place.
 -/
@@ -53,8 +59,17 @@ def mkMFn (t : Array Ent) : MFn OF where
 
 instance : LE OF := ⟨fun a b => a.v ≤ b.v⟩
 instance : DecidableLE OF := fun a b => inferInstanceAs (Decidable (a.v ≤ b.v))
-instance : Min OF := ⟨fun a b => if a.v ≤ b.v then a else b⟩
-instance : Max OF := ⟨fun a b => if a.v ≤ b.v then b else a⟩
+/-- `Bound.Extend` calls `math.Min` / `math.Max`: NaN propagates, `Min(-0, +0) = -0` (not `if a ≤ b`). -/
+instance : Min OF := ⟨fun a b => ⟨goMin a.v b.v, a.ok && b.ok⟩⟩
+instance : Max OF := ⟨fun a b => ⟨goMax a.v b.v, a.ok && b.ok⟩⟩
+
+/-- Verdict assembly.  `propfail` outranks `diff` EXCEPT for the label that a known finding absorbs
+    (`tile-roundtrip-polar-clamp`): that one is only ever produced when model and implementation
+    agree (see `judgeLayer`), and should it still meet a disagreement the `diff` wins. -/
+def fin15 (agree : Option String) (s : String) : String :=
+  match agree with
+  | some d => if s.startsWith "propfail" && !s.startsWith "propfail tile-roundtrip-polar-clamp" then s else d
+  | none => s
 
 /-- `consts => pi twoPi piHalf d180pi R rPi rPi180 c9999 DefaultExtent` -/
 def handleConsts (out : Toks) : String :=
@@ -82,7 +97,11 @@ def handleW2M (inp out : Toks) : String :=
     fin (cmpAll [mm.x, mm.y, mg.x, mg.y] [m.x, m.y, g2.x, g2.y]) <|
     let ex := (fl g2.x - fl g.x).abs
     let ey := (fl g2.y - fl g.y).abs
-    if (fl g.y).abs > 85.05 then "skip latitude-outside-mercator-range" else
+    if !((fl g.y).abs ≤ 85.05) then
+      -- outside the quantifier (|lat| ≤ 85.05): twin only; the tag says whether the ±earthRadiusPi clamp fired
+      let yraw := F.log (F.tan ((90 + ofB g.y) * F.pi / 360)) * F.R
+      s!"ok w2m beyond-range {if yraw.v.isNaN then "nan" else if yraw.v > (ofB rPiBits).v || yraw.v < -(ofB rPiBits).v then "clamp-active" else "clamp-inactive"} twin-only"
+    else
     -- measured: 1e-9 degrees
     if !(ex ≤ 1e-9) then "propfail merc-roundtrip-lon" else
     if !(ey ≤ 1e-9) then "propfail merc-roundtrip-lat" else
@@ -105,6 +124,8 @@ def handleM2W (inp out : Toks) : String :=
     fin (cmpAll [mg.x, mg.y, mm.x, mm.y] [g.x, g.y, m2.x, m2.y]) <|
     let ex := (fl m2.x - fl m.x).abs
     let ey := (fl m2.y - fl m.y).abs
+    -- outside the square |x|, |y| ≤ R·π the forward map clamps y (and lon leaves [-180,180]): not in the quantifier
+    if !((fl m.x).abs ≤ fl rPiBits) || !((fl m.y).abs ≤ fl rPiBits) then "skip mercator-outside-range twin-only" else
     -- measured: 1 mm
     if !(ex ≤ 1e-3) then "propfail merc-roundtrip-rev-x" else
     if !(ey ≤ 1e-3) then "propfail merc-roundtrip-rev-y" else
@@ -123,6 +144,12 @@ def geomFloatEq (a b : Geom UInt64) : Bool :=
   showGeom (mapGeom (fun _ => (0 : UInt64)) a) == showGeom (mapGeom (fun _ => (0 : UInt64)) b) &&
   ((coords a).zip (coords b)).all fun (x, y) => fl x == fl y
 
+/-- identical structure and float-equal coordinates (`-0 == +0`), all NaNs identified (Go's `math.Min/Max` return
+    `math.NaN()`, an overflowing `Inf - Inf` the hardware's default NaN) -/
+def geomNaNEq (a b : Geom UInt64) : Bool :=
+  showGeom (mapGeom (fun _ => (0 : UInt64)) a) == showGeom (mapGeom (fun _ => (0 : UInt64)) b) &&
+  ((coords a).zip (coords b)).all fun (x, y) => fl x == fl y || sameF (fl x) y
+
 def pureProj (f : Pt OF → Pt OF) : Proj Unit OF := fun p s => (f p, s)
 
 def geomOk (g : Geom OF) : Bool := (coords g).all (·.ok)
@@ -138,7 +165,86 @@ def geomAgree (m : Geom OF) (i : Geom UInt64) : Option String :=
 
 def firstSome (l : List (Option String)) : Option String := l.findSome? id
 
-/-- `tile X Y Z extent k geom* => geom*(wgs84) geom*(tile) T…` -/
+/-- vertices of a feature geometry (none for nil / typed nil) -/
+def vertsV (g : GVal UInt64) : List (Pt Float) :=
+  match g with
+  | .val g => vertsF g
+  | _ => []
+
+/-- The units in which a round-trip failure is attributed: every vertex on its own, except that the
+    two corners of a `Bound` form ONE unit — `project.Bound` re-boxes after each stage, so one clamped
+    corner (sent to the bottom row by `ToPlanar`) displaces both y values of the box. -/
+partial def unitsG (g : Geom UInt64) : List (List (Pt Float)) :=
+  match g with
+  | .bound a b => [[mapPt fl a, mapPt fl b]]
+  | .collection gs => gs.flatMap unitsG
+  | g => (vertsF g).map fun p => [p]
+
+def unitsV (g : GVal UInt64) : List (List (Pt Float)) :=
+  match g with
+  | .val g => unitsG g
+  | _ => []
+
+def shapeStr (g : GVal UInt64) : String := showGVal (mapGVal (fun _ => (0 : UInt64)) g)
+
+/-- model feature (OF) against implementation feature (bits) -/
+def gvalAgree (m : GVal OF) (i : GVal UInt64) : Option String :=
+  match m, i with
+  | .val a, .val b => geomAgree a b
+  | a, b =>
+    let ab : GVal UInt64 := mapGVal (fun (x : OF) => x.v.toBits) a
+    if showGVal ab == showGVal b then none else some ("diff " ++ showGVal ab)
+
+/-- Judged domain of "exactly the same integers": `zoom + log₂ extent ≤ resolutionLimit`.
+    Error analysis (float64, |u| ≤ 2 world widths): `ToGeo` delivers the latitude to a few 2⁻⁵³ rad;
+    in `ToPlanar` the quotient `(1+s)/(1−s)` loses `2⁻⁵³/(1−s)` relative, i.e. ≤ 2⁻⁴⁵ inside the
+    mercator square (1−s ≥ 0.0038) and ≤ 2⁻³⁹·⁷ up to the clamp (1−s ≥ 10⁻⁴, zoom ≤ 1 only); after
+    `log` and `/4π` the world fraction is off by ≤ 2⁻⁴⁸ (2⁻⁴³ near the clamp), so a pixel of
+    `2^-(zoom + log₂ extent)` world widths keeps its ½-pixel margin up to level 46 (41 near the
+    clamp, where uint32 extents at zoom ≤ 1 reach level 33 at most).  44 leaves a factor 8. -/
+def resolutionLimit : Nat := 44
+
+/-- The tile round trip of ONE layer, judged on the implementation's outputs `g2` for inputs `gs`.
+    `agreed` = the twin reproduced the implementation on this case. -/
+def judgeLayer (F : MFn OF) (agreed : Bool) (x y z e : Nat) (gs g2 : List (GVal UInt64)) : String :=
+  let T := newProjection F x y z e
+  let pow2 := isPowerOfTwo e
+  let vin := gs.flatMap vertsV
+  let vout := g2.flatMap vertsV
+  let sameShape := gs.length == g2.length && (gs.zip g2).all fun (a, b) => shapeStr a == shapeStr b
+  if !sameShape then "propfail tile-roundtrip-shape" else
+  let n := vin.length
+  let pairs := vin.zip vout
+  let badx := (pairs.filter fun (a, b) => !(a.x == b.x)).length
+  let bady := (pairs.filter fun (a, b) => !(a.y == b.y)).length
+  -- the level at which one pixel is one unit: `z + n` on the power-of-two path (n = 32 for extent 0)
+  let level := if pow2 then z + trailingZeros32 e else z + Nat.log2 e
+  let cls := if e == 0 then "extent0" else if pow2 then "pow2" else "nonpow2"
+  let ext := if e < 256 then " ext<256" else if e > 8192 then " ext>8192" else ""
+  let zb := if z ≤ 7 then "0-7" else if z ≤ 15 then "8-15" else if z ≤ 22 then "16-22" else ">22"
+  if badx == 0 && bady == 0 then
+    (if n == 0 then "ok triv-tile-no-vertices" else s!"ok tile {cls} z={zb}{ext}")
+  else
+    -- A bad vertex is excused ONLY by its own latitude (a bound: by one of its own two corners, see
+    -- `unitsG`): the model's latitude of that very pixel must make ToPlanar's clamp fire (sin(lat) beyond ±0.9999 ⇔ |lat| > 89.1897°), which within the pixel
+    -- range [-extent, 2·extent) happens only at zoom ≤ 1 (|u| > 0.288 world widths above/below the map).
+    let clamped := fun (p : Pt Float) =>
+      let lat := (T.toWGS84 ⟨⟨p.x, true⟩, ⟨p.y, true⟩⟩).y
+      let siny := F.sin (lat * F.pi / 180)
+      siny.ok && (siny.v < -(F.c9999.v) || F.c9999.v < siny.v) && lat.v.abs > 89.1897
+    let upairs := (gs.flatMap unitsV).zip (g2.flatMap unitsV)
+    let badu := upairs.filter fun (ua, ub) => (ua.zip ub).any fun (a, b) => !(a.x == b.x) || !(a.y == b.y)
+    let excused := badu.all fun (ua, ub) => ((ua.zip ub).all fun (a, b) => a.x == b.x) && ua.any clamped
+    let polar := (vin.filter clamped).length
+    let offBy1 := pairs.all fun (a, b) => (a.x == b.x || a.x - b.x == 1) && (a.y == b.y || a.y - b.y == 1)
+    if agreed && z ≤ 1 && excused then s!"propfail tile-roundtrip-polar-clamp extent={e} z={z} bad-y={bady} of={n}"
+    else if z > 22 then s!"skip zoom-outside-quantifier z={z}"
+    else if level > resolutionLimit then s!"skip float-resolution zoom+log2(extent)={level}"
+    else if pow2 then s!"propfail tile-roundtrip-pow2 extent={e} z={z} bad-x={badx} bad-y={bady} polar={polar} of={n}"
+    else s!"propfail tile-roundtrip-nonpow2 extent={e} z={z} bad-x={badx} bad-y={bady} polar={polar} of={n} {if offBy1 then "all-one-low" else "mixed"}"
+
+/-- `tile X Y Z extent k geom* => geom*(wgs84) geom*(tile) T…`
+    (`Layer.ProjectToWGS84` then `Layer.ProjectToTile`; features may be nil / typed nil) -/
 def handleTile (inp out : Toks) : String :=
   match (do
     let (x, i) ← nat inp
@@ -146,42 +252,68 @@ def handleTile (inp out : Toks) : String :=
     let (z, i) ← nat i
     let (e, i) ← nat i
     let (k, i) ← nat i
-    let (gs, _) ← many geom k i
-    let (g1, o) ← many geom k out
-    let (g2, o) ← many geom k o
+    let (gs, _) ← many gval k i
+    let (g1, o) ← many gval k out
+    let (g2, o) ← many gval k o
     let (t, _) ← tableP o
     pure (x, y, z, e, gs, g1, g2, t)) with
   | none => if out == ["panic"] then "propfail panic" else "bad tile"
   | some (x, y, z, e, gs, g1, g2, t) =>
     let F := mkMFn t
-    let T := newProjection F x y z e
-    -- stage 1: model on the input; stage 2: model on the implementation's own WGS84 geometry
-    let m1 := gs.map fun g => (geometryM (pureProj T.toWGS84) (toOG g) ()).1
-    let m2 := g1.map fun g => (geometryM (pureProj T.toTile) (toOG g) ()).1
-    let agree := firstSome ((m1.zip g1).map (fun (m, i) => geomAgree m i) ++ (m2.zip g2).map (fun (m, i) => geomAgree m i))
-    fin agree <|
-    let pow2 := isPowerOfTwo e
-    -- the property: exactly the same integers
-    let vin := gs.flatMap vertsF
-    let vout := g2.flatMap vertsF
-    let vmid := g1.flatMap vertsF
-    let sameShape := (gs.zip g2).all fun (a, b) =>
-      showGeom (mapGeom (fun _ => (0 : UInt64)) a) == showGeom (mapGeom (fun _ => (0 : UInt64)) b)
-    if !sameShape then "propfail tile-roundtrip-shape" else
-    let n := vin.length
-    let trip := vin.zip (vmid.zip vout)
-    let badx := (trip.filter fun (a, _, b) => !(a.x == b.x)).length
-    let bady := (trip.filter fun (a, _, b) => !(a.y == b.y)).length
-    if badx == 0 && bady == 0 then
-      (if n == 0 then "ok triv-tile-no-vertices" else s!"ok tile {if pow2 then "pow2" else "nonpow2"} z={if z ≤ 7 then "0-7" else if z ≤ 15 then "8-15" else "16-22"}")
-    else
-      -- beyond asin(0.9999) = 89.19°: ToPlanar's top-of-the-world clamp makes the y round trip impossible
-      -- (a bound is re-boxed between the stages, so polar vertices are counted, not paired)
-      let polar := (vmid.filter fun m => m.y.abs > 89.18).length
-      let offBy1 := trip.all fun (a, _, b) => (a.x == b.x || a.x - b.x == 1) && (a.y == b.y || a.y - b.y == 1)
-      if badx == 0 && bady ≤ 2 * polar then s!"propfail tile-roundtrip-polar-clamp extent={e} z={z} bad-y={bady} of={n}"
-      else if pow2 then s!"propfail tile-roundtrip-pow2 extent={e} z={z} bad-x={badx} bad-y={bady} polar={polar} of={n}"
-      else s!"propfail tile-roundtrip-nonpow2 extent={e} z={z} bad-x={badx} bad-y={bady} polar={polar} of={n} {if offBy1 then "all-one-low" else "mixed"}"
+    -- stage 1: the model of Layer.ProjectToWGS84 on the input; stage 2: the model of
+    -- Layer.ProjectToTile on the implementation's own WGS84 features
+    let m1 := layerProjectToWGS84 F x y z e (gs.map toOV)
+    let m2 := layerProjectToTile F x y z e (g1.map toOV)
+    let agree := firstSome ((m1.zip g1).map (fun (m, i) => gvalAgree m i) ++ (m2.zip g2).map (fun (m, i) => gvalAgree m i))
+    fin15 agree <| judgeLayer F agree.isNone x y z e gs g2
+
+/-- the features of every layer, layer by layer (as many per layer as the input has) -/
+def outP : List (Nat × List (GVal UInt64)) → P (List (List (GVal UInt64)))
+  | [] => fun ts => some ([], ts)
+  | l :: ls => fun ts => do
+    let (a, ts) ← many gval l.2.length ts
+    let (as, ts) ← outP ls ts
+    pure (a :: as, ts)
+
+/-- `tiles X Y Z n (extent k geom*)ⁿ => (geom*)ⁿ(wgs84) (geom*)ⁿ(tile) T…`
+    (`Layers.ProjectToWGS84` then `Layers.ProjectToTile` on n layers, each with its own extent) -/
+def handleTiles (inp out : Toks) : String :=
+  let layerP : P (Nat × List (GVal UInt64)) := fun ts => do
+    let (e, ts) ← nat ts
+    let (k, ts) ← nat ts
+    let (gs, ts) ← many gval k ts
+    pure ((e, gs), ts)
+  match (do
+    let (x, i) ← nat inp
+    let (y, i) ← nat i
+    let (z, i) ← nat i
+    let (n, i) ← nat i
+    let (ls, _) ← many layerP n i
+    let (g1, o) ← outP ls out
+    let (g2, o) ← outP ls o
+    let (t, _) ← tableP o
+    pure (x, y, z, ls, g1, g2, t)) with
+  | none => if out == ["panic"] then "propfail panic" else "bad tiles"
+  | some (x, y, z, ls, g1, g2, t) =>
+    let F := mkMFn t
+    let m1 := layersProjectToWGS84 F x y z (ls.map fun l => (l.1, l.2.map toOV))
+    let mid := (ls.zip g1).map fun (l, g) => (l.1, g.map toOV)
+    let m2 := layersProjectToTile F x y z mid
+    let cmp : List (Nat × List (GVal OF)) → List (List (GVal UInt64)) → List (Option String) := fun ms is =>
+      (ms.zip is).flatMap fun (m, i) => (m.2.zip i).map fun (a, b) => gvalAgree a b
+    let agree := firstSome (cmp m1 g1 ++ cmp m2 g2)
+    let vs := (ls.zip g2).map fun (l, g) => judgeLayer F agree.isNone x y z l.1 l.2 g
+    -- the worst verdict of the layers: propfail (unabsorbed first), then skip, then ok
+    let pf := vs.filter (·.startsWith "propfail")
+    let v :=
+      match pf.find? (fun v => !v.startsWith "propfail tile-roundtrip-polar-clamp"), pf.head?, vs.find? (·.startsWith "skip") with
+      | some v, _, _ => v
+      | none, some v, _ => v
+      | none, none, some v => v
+      | none, none, none =>
+        if vs.all (· == "ok triv-tile-no-vertices") then "ok triv-tiles-no-vertices"
+        else s!"ok tiles layers={ls.length}{if ls.any (fun l => isPowerOfTwo l.1) then " pow2" else ""}{if ls.any (fun l => !isPowerOfTwo l.1) then " nonpow2" else ""}"
+    fin15 agree v
 
 /-- `totile X Y Z extent geom => geom T…` (twin only) -/
 def handleToTile (inp out : Toks) : String :=
@@ -200,7 +332,7 @@ def handleToTile (inp out : Toks) : String :=
     let T := newProjection F x y z e
     let m := (geometryM (pureProj T.toTile) (toOG g) ()).1
     fin (geomAgree m g1) <|
-    if (vertsF g).any (fun p => p.y.abs > 89.18) then "ok totile polar-clamp twin-only" else "ok totile twin-only"
+    if (vertsF g).any (fun p => p.y.abs > 89.1897) then "ok totile polar-clamp twin-only" else "ok totile twin-only"
 
 /-- the harness's point function: the k-th call maps p to an affine image shifted by k -/
 def affine (co : Array Float) : Proj Nat OF := fun p k =>
@@ -231,7 +363,7 @@ def handleProj (inp out : Toks) : String :=
       let mrb : GVal UInt64 := mapGVal (fun (x : OF) => x.v.toBits) mr
       let agree : Option String :=
         match mrb, r with
-        | .val a, .val b => if geomFloatEq a b || geomBitsEq a b then (if mcalls == calls then none else some s!"diff calls {mcalls}") else some ("diff " ++ showGeom a)
+        | .val a, .val b => if geomNaNEq a b then (if mcalls == calls then none else some s!"diff calls {mcalls}") else some ("diff " ++ showGeom a)
         | a, b => if showGVal a == showGVal b && mcalls == calls then none else some ("diff " ++ showGVal a)
       fin agree <|
       match g, r with
@@ -243,7 +375,7 @@ def handleProj (inp out : Toks) : String :=
         if calls != vs.length then "propfail project-calls-once-per-vertex" else
         let spec := geomBits (fill (toOG g) run.1)
         if showGeom (mapGeom (fun _ => (0 : UInt64)) spec) != showGeom (mapGeom (fun _ => (0 : UInt64)) r) then "propfail project-shape" else
-        if !(geomFloatEq spec r || geomBitsEq spec r) then "propfail project-map" else
+        if !(geomNaNEq spec r) then "propfail project-map" else
         (match g with
          | .point _ | .bound _ _ => if al != "v" then "bad alias" else (match g with | .bound _ _ => "ok proj bound" | _ => "ok triv-proj-point")
          | _ => if al != "1" then "propfail project-not-in-place" else
@@ -326,6 +458,7 @@ def handle (ts : Toks) : String :=
     | "w2m" => handleW2M inp out
     | "m2w" => handleM2W inp out
     | "tile" => handleTile inp out
+    | "tiles" => handleTiles inp out
     | "totile" => handleToTile inp out
     | "proj" => handleProj inp out
     | _ => "bad op " ++ op
